@@ -52,6 +52,14 @@ def prop_status(pid, prog):
 def run_case(case, dst):
     path = os.path.join(dst, case["file"])
     src = open(path).read()
+    if case.get("rename"):
+        import re as _re
+        new = src
+        for a_, b_ in case["rename"]:
+            if not _re.search(r"\b%s\b" % _re.escape(a_), new):
+                return dict(name=case["name"], ok=False, why="identifier %s not found in %s (case out of date)" % (a_, case["file"]))
+            new = _re.sub(r"\b%s\b" % _re.escape(a_), b_, new)
+        case = dict(case, old=src, new=new)
     if src.count(case["old"]) != 1:
         return dict(name=case["name"], ok=False, why="anchor text occurs %d times in %s (case out of date)" % (src.count(case["old"]), case["file"]))
     new = src.replace(case["old"], case["new"])
